@@ -4,6 +4,7 @@ import (
 	"bytes"
 	"fmt"
 	"reflect"
+	"sync"
 	"testing"
 
 	"github.com/bluenviron/gomavlib/v3/pkg/message"
@@ -266,6 +267,44 @@ func TestC03(t *testing.T) {
 		if i%97 == 0 {
 			rep.Sample(map[string]interface{}{"msg": mi.Name, "mavlink_name": mi.Layout.Name, "crc_extra": mi.Layout.CRCExtra,
 				"size_base": mi.Layout.SizeBase, "size_ext": mi.Layout.SizeExt, "fields": len(mi.Layout.Fields)})
+		}
+	}
+	// the same layout is read when several goroutines decode with ONE ReadWriter at the same time (a Node shares
+	// the dialect's codecs between the reader goroutines of its channels)
+	{
+		cr := vh.Sub(seed, "c03-concurrent")
+		for k := 0; k < vh.Pick(10, 100); k++ {
+			mi := all[cr.Intn(len(all))]
+			if mi.Layout.SizeExt > 255 || mi.Layout.SizeExt < 4 {
+				continue
+			}
+			var wg sync.WaitGroup
+			for g := 0; g < 4; g++ {
+				wg.Add(1)
+				gr := cr.Fork()
+				go func() {
+					defer wg.Done()
+					for i := 0; i < vh.Pick(300, 3000); i++ {
+						val := reflect.New(mi.Type)
+						vh.FillMessage(gr, mi.Layout, val, vh.ModeZeroTail)
+						p := mi.Layout.Encode(val, true) // truncated on the wire
+						got, err := mi.RW.Read(&message.MessageRaw{ID: mi.Msg.GetID(), Payload: p}, true)
+						want, _ := mi.Layout.Decode(p, true)
+						rep.Eval(1)
+						if err != nil {
+							rep.Violation(fmt.Sprintf("msg=%s what=field:*:dec", mi.Name), "decode failed: "+err.Error(), vh.Hex(p))
+							return
+						}
+						if eq, diff := mi.Layout.BitEqual(reflect.ValueOf(got), want); !eq {
+							rep.Violation(fmt.Sprintf("msg=%s what=field:*:dec", mi.Name),
+								"decoding concurrently with other decodes of the same message type read field "+diff+" from another payload", vh.Hex(p))
+							return
+						}
+					}
+				}()
+			}
+			wg.Wait()
+			rep.Count("concurrent_decode_types", 1)
 		}
 	}
 	// golden CRC_EXTRA of the standard set, against the real codec
